@@ -33,20 +33,23 @@ def main():
     if "--sample" in sys.argv: sample = int(sys.argv[sys.argv.index("--sample") + 1])
     if "--seed" in sys.argv: seed = int(sys.argv[sys.argv.index("--seed") + 1])
     mutate = "/verif/build/mutate"
+    base = f"/tmp/mw-{wid}"
+    shutil.rmtree(base, ignore_errors=True)
+    os.makedirs(base)
+    # a private pristine copy: /repo itself may be patched by other experiments while the campaign runs
+    pristine = base + "/pristine"
+    sh(["bash", "-c", f"mkdir -p {pristine} && git -C /repo archive HEAD | tar -x -C {pristine}"])
     sites = []
     for f in FILES:
-        rc, out = sh([mutate, "-file", "/repo/" + f, "-list"])
+        rc, out = sh([mutate, "-file", pristine + "/" + f, "-list"])
         for line in out.splitlines():
             k, op, pos, desc = line.split("\t", 3)
             sites.append((f, int(k), op, pos, desc))
     random.Random(seed).shuffle(sites)
     if sample: sites = sites[:sample]
     mine = sites[wid::nw]
-    base = f"/tmp/mw-{wid}"
-    shutil.rmtree(base, ignore_errors=True)
-    os.makedirs(base)
     repo, verif = base + "/repo", base + "/verif"
-    sh(["rsync", "-a", "--exclude", ".git", "/repo/", repo + "/"])
+    sh(["rsync", "-a", pristine + "/", repo + "/"])
     sh(["rsync", "-a", "--exclude", ".git", "--exclude", "build/driver-*", "--exclude", "build/harness*", "--exclude", "replays", "--exclude", "evidence",
         "--exclude", "mutation/results", "--exclude", "seeded", "--exclude", "benign", "/verif/", verif + "/"])
     gm = open(verif + "/go/go.mod").read().replace("=> /repo", "=> " + repo)
@@ -63,8 +66,8 @@ def main():
         if (f, k) in done: continue
         t0 = time.time()
         rec = {"file": f, "k": k, "op": op, "pos": pos, "desc": desc}
-        shutil.copy("/repo/" + f, repo + "/" + f)
-        rc, out = sh([mutate, "-file", "/repo/" + f, "-apply", str(k), "-out", repo + "/" + f])
+        shutil.copy(pristine + "/" + f, repo + "/" + f)
+        rc, out = sh([mutate, "-file", pristine + "/" + f, "-apply", str(k), "-out", repo + "/" + f])
         if rc != 0:
             rec["status"] = "mutate-failed"
         else:
@@ -89,12 +92,12 @@ def main():
                     rec["status"] = "caught" if caught else "survived"
                     rec["caught_by"], rec["quiet"], rec["lines"] = caught, quiet, lines
                     if not caught:
-                        rc, d = sh(["diff", "-u", "/repo/" + f, repo + "/" + f])
+                        rc, d = sh(["diff", "-u", pristine + "/" + f, repo + "/" + f])
                         rec["diff"] = d[:3000]
         rec["wall_s"] = round(time.time() - t0, 1)
         with open(outp, "a") as fh:
             fh.write(json.dumps(rec) + "\n")
-        shutil.copy("/repo/" + f, repo + "/" + f)
+        shutil.copy(pristine + "/" + f, repo + "/" + f)
     shutil.rmtree(base, ignore_errors=True)
 
 if __name__ == "__main__":
